@@ -563,6 +563,39 @@ pub fn applicable(op: &Op, m: &Msg, s: &Snap, pointer_free: bool) -> bool {
     let has_q = !m.q.is_empty();
     let has_recs = !m.an.is_empty() || !m.ns.is_empty();
     let qr = m.flags & 0x8000 != 0;
+    // a name that runs through the header bytes is legitimately rewritten by a header setter: such
+    // histories are outside the properties
+    let through_header = || -> bool {
+        let b = match &s.packet {
+            Some(b) => b,
+            None => return false,
+        };
+        let mut o = 12usize;
+        let mut hops = 0;
+        while o < b.len() && hops < 40 {
+            let c = b[o];
+            if c & 0xc0 == 0xc0 {
+                if o + 1 >= b.len() {
+                    return false;
+                }
+                let t = (((c & 0x3f) as usize) << 8) | b[o + 1] as usize;
+                if t < 12 {
+                    return true;
+                }
+                o = t;
+                hops += 1;
+                continue;
+            }
+            if c == 0 {
+                return false;
+            }
+            o += 1 + c as usize;
+        }
+        false
+    };
+    if matches!(op, Op::SetTid(_) | Op::SetFlags(_) | Op::SetRcode(_) | Op::SetOpcode(_) | Op::SetResponse(_)) && !pointer_free && through_header() {
+        return false;
+    }
     match op {
         Op::SetFlags(f) => !(has_recs && f & 0x8000 == 0),
         Op::SetResponse(r) => *r || !has_recs,
